@@ -62,7 +62,13 @@ class _RequestHandler:
         self.logger.info("<= [%s]: %s", client_address, data)
         try:
             response = {}
-            request = json.loads(data)
+            try:
+                request = json.loads(data)
+            except (RecursionError, ValueError) as e:
+                # Besides JSONDecodeError (a ValueError), json.loads raises
+                # RecursionError on deeply nested input and a plain
+                # ValueError on oversized integer literals
+                raise json.decoder.JSONDecodeError(str(e), "", 0)
             self.logger.debug("Delivering request")
             response = self.protocol.handle_request(request)
             self.logger.debug("Got response: %s", response)
